@@ -31,7 +31,7 @@ def canaries(tier):
     return [Unit(M.MangleDir, {'n': 2, 'level': 1, '_canary': True})]
 
 
-OPTS = {'quick': {'max_paths': 20000}, 'thorough': {'max_paths': 200000}}
+OPTS = {'quick': {'max_paths': 20000, 'unit_timeout_s': 900}, 'thorough': {'max_paths': 200000, 'unit_timeout_s': 3000}}
 META = {}
 
 META = {
